@@ -935,29 +935,34 @@ def r13_overlay_copy_on_first_write(ctx):
     """an inline set-valued directive works on a COPY of the persistent set, made when the overlay does not hold the key yet.  The copy has to be
     guarded by exactly that test: copying again on a later effect of the same comment throws away what the earlier effects did to the overlay"""
     rep = ctx.rep
-    f = ctx.func(RS + '.update')
-    g = ctx.cfg(f)
-    recv = _recv(f)
-    dom = ctx.dom(g, g.entry)
-    copies = []
-    for n in g.nodes:
-        if n.kind != 'stmt' or n.dup or not isinstance(n.ast, ast.Assign) or not isinstance(n.ast.targets[0], ast.Subscript):
+    cls = ctx.cls(RS)
+    n_copies = 0
+    for f in cls.methods.values():
+        if not f.node.args.args:
             continue
-        reads_global = any(isinstance(x, ast.Subscript) and field_name(x.value, recv) == recv + '.' + GLOBAL for x in ast.walk(n.ast.value))
-        if reads_global and isinstance(n.ast.targets[0].value, ast.Name):
-            copies.append(n)
-    rep.floor('C04.R13', 'copies of a persistent set into the working state', len(copies), 2)
-    for n in copies:
-        tgt = n.ast.targets[0]
-        state, key = tgt.value.id, ctx.src(tgt.slice)
-        facts = [fa for fa in graph.guard_facts(dom, n) if fa.polarity in (True, False) and isinstance(fa.expr, ast.AST)]
-        ok = any(isinstance(fa.expr, ast.Compare) and len(fa.expr.ops) == 1 and
-                 ((isinstance(fa.expr.ops[0], ast.NotIn) and fa.polarity is True) or (isinstance(fa.expr.ops[0], ast.In) and fa.polarity is False)) and
-                 ctx.src(fa.expr.left) == key and is_name(fa.expr.comparators[0], state) for fa in facts)
-        rep.ob('C04.R13', ctx.loc(f, n.ast), ctx.src(n.ast), ok,
-               'copied only when `%s` is not in `%s` yet' % (key, state) if ok else
-               'the persistent set is copied into the working state without testing that the key is absent (guards: %s): a second REQUIRES effect of the same inline comment '
-               'starts from the persistent set again and undoes the first' % fmt_facts(facts), anchor=f.qualname)
+        recv = _recv(f)
+        if not any(isinstance(x, ast.Subscript) and field_name(x.value, recv) == recv + '.' + GLOBAL for x in ast.walk(f.node)):
+            continue
+        g = ctx.cfg(f)
+        dom = ctx.dom(g, g.entry)
+        for n in g.nodes:
+            if n.kind != 'stmt' or n.dup or not isinstance(n.ast, ast.Assign) or not isinstance(n.ast.targets[0], ast.Subscript):
+                continue
+            reads_global = any(isinstance(x, ast.Subscript) and field_name(x.value, recv) == recv + '.' + GLOBAL for x in ast.walk(n.ast.value))
+            if not (reads_global and isinstance(n.ast.targets[0].value, ast.Name)):
+                continue
+            n_copies += 1
+            tgt = n.ast.targets[0]
+            state, key = tgt.value.id, ctx.src(tgt.slice)
+            facts = [fa for fa in graph.guard_facts(dom, n) if fa.polarity in (True, False) and isinstance(fa.expr, ast.AST)]
+            ok = any(isinstance(fa.expr, ast.Compare) and len(fa.expr.ops) == 1 and
+                     ((isinstance(fa.expr.ops[0], ast.NotIn) and fa.polarity is True) or (isinstance(fa.expr.ops[0], ast.In) and fa.polarity is False)) and
+                     ctx.src(fa.expr.left) == key and is_name(fa.expr.comparators[0], state) for fa in facts)
+            rep.ob('C04.R13', ctx.loc(f, n.ast), ctx.src(n.ast), ok,
+                   'copied only when `%s` is not in `%s` yet' % (key, state) if ok else
+                   'the persistent set is copied into the working state without testing that the key is absent (guards: %s): a second REQUIRES effect of the same inline comment '
+                   'starts from the persistent set again and undoes the first' % fmt_facts(facts), anchor=f.qualname)
+    rep.floor('C04.R13', 'copies of a persistent set into the working state', n_copies, 1)
 
 
 # ---------------------------------------------------------------------------
